@@ -255,6 +255,14 @@ def streams(rng, tier):
         past.append({"k": "vec", "vals": [["D", [[["s", "k"], ["i", i]]]] for i in range(n)], "name": ["s", "d"],
                      "glob": "keep", "mode": "hostile", "past": 3})
     out.append(("past", past))
+    # ---- tables in the state "a column was renamed through a live view and nothing has looked at the names since":
+    #      repr must leave that pending state to whoever looks next (printed and never-printed twins behave alike)
+    pend = []
+    for n in (0, 0, 1, 3, 12):
+        for w in (1, 2, 3, 13):
+            cols = [[["s", f"n{j}"], column("int" if j % 2 else "str", j, n, "none")] for j in range(w)]
+            pend.append({"k": "tbl", "cols": cols, "glob": "keep", "override": "keep", "mode": "full", "pending": True})
+    out.append(("pending-rename", pend))
     return out
 
 
@@ -463,8 +471,20 @@ def observe(case):
                 out["past_ok"] = True
             out["schema"] = V.schema_obs(obj.schema())
             out["istable"] = isinstance(obj, Table)
+        twin = None
+        if case.get("pending") and is_tbl:
+            def pending():
+                t = Table([Vector([_dec(x) for x in vals], name=_dec(nm) + "_old") for nm, vals in case["cols"]])
+                for nm, _ in case["cols"]:                   # the names are looked at: the lookup tables exist
+                    getattr(t, _dec(nm) + "_old")
+                dir(t)
+                for c, (nm, _) in zip(t.cols(), case["cols"]):
+                    c.name = _dec(nm)                        # renamed through the live column view: pending
+                return t
+            obj, twin = pending(), pending()
+            cols = list(obj.cols())
         out["limit"] = getattr(D, "_REPR_ROWS_DEFAULT", None)
-        before = _snap(obj, is_tbl)
+        before = _snap(obj, is_tbl) if twin is None else None
         try:
             s = repr(obj)
             if not isinstance(s, str):
@@ -480,6 +500,18 @@ def observe(case):
         except Exception as e:
             out["exc"] = err_name(e)
             out["msg"] = f"{type(e).__name__}: {e}"[:160]
+        if twin is not None:
+            def behaviour(t):
+                names = [_dec(nm) for nm, _ in case["cols"]]
+                return {"new": [hasattr(t, nm) for nm in names], "old": [hasattr(t, nm + "_old") for nm in names],
+                        "dir": sorted(x for x in dir(t) if x.startswith("n") and x[1:2].isdigit()),
+                        "snap": _snap(t, True)}
+            b1, b2 = behaviour(obj), behaviour(twin)
+            out["pure"] = b1 == b2
+            if not out["pure"]:
+                out["impure"] = [f"after repr the table answers {k}={b1[k]!r}; its never-printed twin {b2[k]!r}"[:300]
+                                 for k in b1 if b1[k] != b2[k]]
+            return out
         after = _snap(obj, is_tbl)
         out["pure"] = (before == after) and getattr(D, "_REPR_ROWS_DEFAULT", None) == out["limit"]
         if not out["pure"]:
